@@ -275,8 +275,12 @@ def run(ctx):
                     f["length"] = str(digits)
                     f["limits"] = [-(10 ** (digits - 1)) + 1 if digits > 1 else 0, 10**digits - 1]
                     f["upper_length"] = digits
-                else:
+                elif form < 0.9:
                     f["limits"] = [-(2**31), 2**31 - 1]
+                else:
+                    # open on one side (like the documented "weight: Integer 0..."): still one column per field, type unjudged
+                    f["rule"] = rng.choice(["0...", "...20", "1...5, 100...", "-5..."])
+                    ctx.count("integer-fields.half-open")
             elif t == "Decimal":
                 if rng.random() < 0.8:
                     frac = rng.randint(0, 6)
